@@ -6,6 +6,7 @@ import (
 	"math"
 	"os"
 	"os/exec"
+	"runtime"
 	"strings"
 
 	spg "go.1password.io/spg"
@@ -65,6 +66,9 @@ func c08Gen(r *gen.R) WLCase {
 	if r.Chance(1, 2) {
 		w.Scheme = []string{"random", "one"}[r.Intn(2)]
 	}
+	if r.Chance(1, 24) { // thousands of words, one of them uncapitalisable, perhaps a twin pair
+		w.Words = c10BigInput(r)
+	}
 	if r.Chance(1, 8) { // long passwords: the float32 arithmetic of the published value is still exact enough
 		w.Length = []int{10, 16, 17, 32, 33, 64, 65, 100, 255, 256, 1000, 3000}[r.Intn(12)]
 	}
@@ -115,7 +119,46 @@ func (w *WLCase) restore() {
 	}
 }
 
+// c08BigList: a list of a couple of thousand words with exactly one uncapitalisable word, constructed many
+// times under several processor counts: the answer to "does every word change under title-casing" must not
+// depend on where that word ends up or on how the work is split.
+func c08BigList(c *Ctx) {
+	n := c.R.Range(2049, 2400)
+	words := make([]string, 0, n+1)
+	for i := 0; i < n; i++ {
+		words = append(words, fmt.Sprintf("w%dx%c", i, 'a'+rune(i%26)))
+	}
+	words = append(words, "4")
+	want := 4 * math.Log2(float64(len(words))) // scheme random gains nothing: "4" does not change
+	reps := 400
+	if c.Thorough() {
+		reps = 4000
+	}
+	for rep := 0; rep < reps; rep++ {
+		if rep%50 == 0 {
+			runtime.GOMAXPROCS([]int{8, 3, 5, 2, 7, 16, 6, 4}[(rep/50)%8])
+		}
+		wl, err := spg.NewWordList(words)
+		if err != nil {
+			return
+		}
+		r := spg.NewWLRecipe(4, wl)
+		r.Capitalize = spg.CSRandom
+		got := float64(r.Entropy())
+		c.Exec(1)
+		if math.Abs(got-want) > 1e-3 {
+			c.Violate("entropy-depends-on-construction", fmt.Sprintf("a list of %d words of which exactly one (\"4\") does not change under title-casing, scheme random, Length 4: construction %d (GOMAXPROCS %d) reports %v bits, the formula gives %.4f", len(words), rep, runtime.GOMAXPROCS(0), got, want), nil)
+			return
+		}
+	}
+	c.Count("big_list_constructions", int64(reps))
+	c.Distinct("nontrivial", fmt.Sprint("biglist", n))
+}
+
 func c08Case(c *Ctx) {
+	if c.Case%25 == 3 {
+		c08BigList(c)
+	}
 	_, per := c08Counts(c.Tier)
 	ins := make([]WLCase, per)
 	first := make([]uint32, per)
@@ -159,7 +202,11 @@ func c08Case(c *Ctx) {
 			}
 			values[v]++
 		}
-		for rep := 0; rep < 64; rep++ {
+		nrep := 64
+		if len(w.Words) > 1000 {
+			nrep = 12
+		}
+		for rep := 0; rep < nrep; rep++ {
 			words := w.Words
 			switch {
 			case rep >= 44:
